@@ -374,6 +374,10 @@ class ScriptPubKey(Script):
     @classmethod
     def parse(cls, s):
         script_pubkey = super().parse(s)
+        if script_pubkey.raw:
+            # not canonically encoded (e.g. OP_PUSHDATA1 for a 20-byte hash): the standard
+            # templates are byte-exact, so this is none of them; keep the bytes as parsed
+            return script_pubkey
         if script_pubkey.is_p2pkh():
             return P2PKHScriptPubKey(script_pubkey.commands[2])
         elif script_pubkey.is_p2sh():
